@@ -8,6 +8,7 @@ import (
 	"errors"
 	"fmt"
 	"io"
+	"unicode/utf16"
 	"unicode/utf8"
 
 	"github.com/ohler55/ojg/gen"
@@ -29,6 +30,8 @@ type Tokenizer struct {
 	mi        int
 	num       gen.Number
 	rn        rune
+	hi        rune // pending high surrogate of a \uXXXX escape
+	hiEnd     int  // len(tmp) just after hi was appended
 	mode      string
 	nextMode  string
 }
@@ -62,6 +65,7 @@ func (t *Tokenizer) Parse(buf []byte, handler TokenHandler) (err error) {
 		t.starts = make([]byte, 0, 16)
 	} else {
 		t.tmp = t.tmp[:0]
+		t.hi = 0
 		t.starts = t.starts[:0]
 	}
 	t.noff = -1
@@ -90,6 +94,7 @@ func (t *Tokenizer) Load(r io.Reader, handler TokenHandler) (err error) {
 		t.starts = make([]byte, 0, 16)
 	} else {
 		t.tmp = t.tmp[:0]
+		t.hi = 0
 		t.starts = t.starts[:0]
 	}
 	t.noff = -1
@@ -366,6 +371,7 @@ func (t *Tokenizer) tokenizeBuffer(buf []byte, last bool) error {
 			t.mode = expSignMap
 			continue
 		case strQuote:
+			t.hi = 0
 			t.mode = t.nextMode
 			if t.nextMode == colonMap {
 				t.handler.Key(string(t.tmp))
@@ -416,8 +422,19 @@ func (t *Tokenizer) tokenizeBuffer(buf []byte, last bool) error {
 				if len(t.runeBytes) < 6 {
 					t.runeBytes = make([]byte, 6)
 				}
+				if 0xDC00 <= t.rn && t.rn <= 0xDFFF && t.hi != 0 && t.hiEnd == len(t.tmp) {
+					// The low half of a surrogate pair directly after the high
+					// half. Replace the high half with the combined rune.
+					t.tmp = t.tmp[:len(t.tmp)-3]
+					t.rn = utf16.DecodeRune(t.hi, t.rn)
+				}
+				t.hi = 0
 				n := utf8.EncodeRune(t.runeBytes, t.rn)
 				t.tmp = append(t.tmp, t.runeBytes[:n]...)
+				if 0xD800 <= t.rn && t.rn <= 0xDBFF {
+					t.hi = t.rn
+					t.hiEnd = len(t.tmp)
+				}
 				t.mode = stringMap
 			}
 			continue
